@@ -19,6 +19,7 @@ requests: the client must not ask).  `pre = []` is the single page; pages may be
 -/
 import Ldap3V.Lemmas.StreamC16
 import Ldap3V.Lemmas.StreamBehindEo
+import Ldap3V.Lemmas.StreamPagedFinish
 namespace Ldap3V.Stream
 open Spec
 
@@ -35,16 +36,16 @@ theorem startOutcome_pagesOf (h : Handle) (q : Query) (pre : List PageD) (last :
   cases pre <;> simp [startOutcome, hh, hq, pagesOf, PageD.page]
 
 /-- (general form) For EVERY page list — including disconnects, time-outs, silence, failing follow-up
-searches, pages without control — and every call sequence over {start, next, state}: the outputs of a
-stream behind PagedResults are those of the cursor on the paged view, i.e. the pages' items
-concatenated in server order up to and including the first page with an empty cookie or without
-paging control. -/
+searches, pages without control — and EVERY call sequence over {start, next, finish, state}: the
+outputs of a stream behind PagedResults are those of the cursor on the paged view, i.e. the pages'
+items concatenated in server order up to and including the first page with an empty cookie or
+without paging control; `finish()` = that page's result without its first paging control at the
+end, rc 88 otherwise. -/
 theorem C16_refines (size : Int) (h : Handle) (pages : List Page) (q : Query) (calls : List Call)
-    (hh : (h.ctrls.getD []).any RCtl.isPaged = false) (hq : q.filterOk = true)
-    (hnf : ∀ k ∈ calls, k ≠ .finish) :
+    (hh : (h.ctrls.getD []).any RCtl.isPaged = false) (hq : q.filterOk = true) :
     run (init [pr size] h pages) (.start q :: calls) =
       Cursor.run (startOutcome [.paged] h q pages) (Cursor.ofView (view [.paged] pages)) (.start q :: calls) :=
-  (refines_paged size h pages q calls hh hq hnf).1
+  refines_paged_all size h pages q calls hh hq
 
 /-- what the paged view is for a well-formed answer: all items of `pre ++ [last]`, then `last`'s result
 without its first paging control; nothing of `rest` -/
@@ -63,7 +64,7 @@ theorem C16_entries (size : Int) (h : Handle) (q : Query) (pre : List PageD) (la
         (.start q :: List.replicate ((itemsOf pre last).length + 1 + k) .next) =
       .started .ok :: ((itemsOf pre last).map (fun i => Output.item (.ok (some i))) ++
         List.replicate (k + 1) (.item (.ok none))) := by
-  rw [C16_refines size h _ q _ hh hq (by intro k hk; rw [List.eq_of_mem_replicate hk]; simp)]
+  rw [C16_refines size h _ q _ hh hq]
   rw [startOutcome_pagesOf h q pre last rest hh hq, Cursor.run]
   have hc : (Cursor.ofView (view [.paged] (pagesOf pre last rest))).step .ok (.start q) =
       ({ Cursor.ofView (view [.paged] (pagesOf pre last rest)) with state := .active }, .started .ok) := by
@@ -204,7 +205,7 @@ example : (h : Handle) → h = { ctrls := some [.other 1, .paged 7 [1, 2]] } →
 /-- PagedResults chained with EntriesOnly, in either order.  (1) For EVERY page list and every call
 sequence over {start, next, state}: the outputs are those of the cursor on ONE view, the same for
 both chain orders: the entries of the concatenated pages, reference URIs collected, intermediate
-messages dropped.  (2) Whenever such a run ends in state Done the requests issued are exactly the
+messages dropped (with `finish()` anywhere in the calls: `C10_refines_paged`).  (2) Whenever such a run ends in state Done the requests issued are exactly the
 sequence C16 prescribes (`pagedRequests`: PR(size, "") first, then PR(size, cookie of page k) with
 the same other controls, options, time-out and query), and `stream.res` is the cursor's final
 result.  (3) For a well-formed answer that view is: the directory entries of `pre ++ [last]` in
